@@ -75,6 +75,14 @@ func nonNilShape(t *Term) bool {
 		return t.Val != nil
 	case KConv:
 		return nonNilShape(t.Args[0])
+	case KCall:
+		// constructors of the standard library that never return nil
+		if f, ok := t.Ref.(*ssa.Function); ok && f.Blocks == nil && f.Pkg != nil {
+			switch f.Pkg.Pkg.Path() + "." + f.Name() {
+			case "errors.New", "fmt.Errorf", "bufio.NewReader", "bufio.NewReaderSize", "bufio.NewWriter", "bufio.NewWriterSize", "bytes.NewReader", "strings.NewReader":
+				return true
+			}
+		}
 	}
 	return false
 }
